@@ -235,3 +235,148 @@ def c11_e(ctx):
                                         wf_name='parent', target='child'),
                needed=['stopped', 'quiescent', 'sub-finished',
                        'items-all-finished'])
+
+
+# ---------------------------------------------------------------------------
+# C11.O  a cancel reaches sub-workflows whose parent TASK has already
+# completed
+# ---------------------------------------------------------------------------
+ORPHAN_TIMEOUT = """
+version: '2.0'
+parent:
+  tasks:
+    ts:
+      workflow: child
+      timeout: 5
+      on-error: h
+    z:
+      action: std.noop
+    h:
+      action: std.noop
+child:
+  tasks:
+    c1:
+      action: std.noop
+"""
+
+ORPHAN_ITEMS = """
+version: '2.0'
+parent:
+  tasks:
+    ts:
+      with-items: i in [0, 1]
+      workflow: child
+    z:
+      action: std.noop
+child:
+  tasks:
+    c1:
+      action: std.noop
+"""
+
+
+def _c11_orphan_case(variant):
+    def case():
+        from vt.world import World
+        from vt.explorer import Explorer
+        from mistral_lib import actions as ml
+        sig = 'C11.O:%s' % variant
+        w = World([ORPHAN_TIMEOUT if variant == 'timeout'
+                   else ORPHAN_ITEMS])
+        with w:
+            ex = Explorer(w, sig, preemptions=0)
+            ex.result_for = lambda ev: ml.Result(data='ok')
+            wid = w.start('parent')
+            ex.check_invariants()
+
+            def tname(ev):
+                tid = ev.payload['exec_ctx'].get('task_execution_id')
+                return [t for t in w.rows('TaskExecution')
+                        if t['id'] == tid][0]['name']
+
+            def drain(skip_timer):
+                for _ in range(60):
+                    evs = [e for e in w.events
+                           if not (e.kind == 'action' and
+                                   tname(e) in ('c1', 'z'))
+                           and not (skip_timer and e.kind == 'job' and
+                                    'fail_task_if_incomplete' in e.label)]
+                    if not evs:
+                        return
+                    ex.deliver(evs[0])
+            drain(True)
+            kids = [x for x in w.rows('WorkflowExecution')
+                    if x['task_execution_id']]
+            if variant == 'timeout':
+                timers = [e for e in w.events if e.kind == 'job' and
+                          'fail_task_if_incomplete' in e.label]
+                assume(len(timers) == 1 and len(kids) == 1)
+                ex.deliver(timers[0])
+                drain(True)
+                ts = w.task('ts', wid)
+                assume(ts['state'] == 'ERROR')
+            else:
+                assume(len(kids) == 2)
+                ex.operator('stop_workflow', kids[0]['id'], 'CANCELLED',
+                            'item cancelled')
+                drain(True)
+                ts = w.task('ts', wid)
+                assume(ts['state'] == 'CANCELLED')
+            running = [x for x in w.rows('WorkflowExecution')
+                       if x['task_execution_id']
+                       and x['state'] == 'RUNNING']
+            assume(running and w.wf_ex(wid)['state'] == 'RUNNING')
+            reach('task-done-child-running')
+            r, errs = ex.operator('stop_workflow', wid, 'CANCELLED', 'MSG')
+            tasks_at_stop = {t['id'] for t in w.rows('TaskExecution')}
+            drain(False)      # the cascade, but no action result yet
+            left = [(x['workflow_name'], x['state'])
+                    for x in w.rows('WorkflowExecution')
+                    if x['state'] not in TERMINAL]
+            check(not left, 'sub-workflow-still-running-after-cancel',
+                  {'signature': sig + ':left-running', 'left': left,
+                   'trace': ex.trace[-20:]})
+            ex.run()          # late results, timers
+            reach('quiescent')
+            rows = w.rows('WorkflowExecution')
+            info = {'trace': ex.trace[-30:],
+                    'states': [(x['workflow_name'], x['state'])
+                               for x in rows],
+                    'errors': [repr(e)[:160] for e in errs]}
+            check(w.wf_ex(wid)['state'] == 'CANCELLED',
+                  'stop-did-not-set-requested-state',
+                  dict(info, signature=sig + ':root'))
+            check(all(x['state'] in TERMINAL for x in rows),
+                  'sub-workflow-left-unfinished-after-cancel',
+                  dict(info, signature=sig + ':subtree'))
+            new = [t for t in w.rows('TaskExecution')
+                   if t['id'] not in tasks_at_stop]
+            check(not new, 'task-created-below-cancelled',
+                  dict(info, signature=sig + ':created-below-cancel',
+                       tasks=[t['name'] for t in new]))
+    return case
+
+
+@obligation(
+    'C11.O', engine='symx+world(minidb)',
+    functions=['mistral.engine.workflow_handler:stop_workflow',
+               'mistral.engine.workflows:Workflow.stop',
+               'mistral.engine.workflows:Workflow._cancel_workflow',
+               'mistral.engine.policies:_fail_task_if_incomplete',
+               'mistral.engine.tasks:WithItemsTask.on_action_complete'],
+    bounds='two situations in which a sub-workflow is still RUNNING although '
+           'the task that started it has completed: the task was failed by '
+           'its timeout (error handled, parent continues), or it is a '
+           'with-items task one of whose items was cancelled on its own; '
+           'then the root is cancelled and everything in flight is '
+           'delivered; FIFO',
+    stubs=['minidb', 'QueueRPC', 'FakeScheduler', 'FakeExecutor',
+           'post-commit queue inline'],
+    outside='deeper trees')
+def c11_o(ctx):
+    """after the cancel every execution of the tree is finished - also the
+    sub-workflows below already completed tasks - and nothing new appears"""
+    boot()
+    for v in ('timeout', 'items'):
+        yield Case(v, _c11_orphan_case(v),
+                   needed=['task-done-child-running', 'quiescent'])
